@@ -37,6 +37,13 @@ def main():
         for name in names:
             pid = name.split("-")[0]
             patch = os.path.join(HERE, "seeded", name, "patch.diff")
+            try:
+                import json
+
+                # a change produced for one property may fall under another property's check (meta.json "decided_by")
+                pid = json.load(open(os.path.join(HERE, "seeded", name, "meta.json"))).get("decided_by", pid)
+            except (OSError, ValueError):
+                pass
             rc, o, e = sh(["git", "apply", patch], wt)
             if rc:
                 print(f"NOAPPLY {name} {e.strip()[:120]}", flush=True)
